@@ -4,7 +4,8 @@
 From Coq Require Import ZArith Reals List Bool.
 From Rubato.Model Require Import Num Reals Base Async Resamplers.
 From Rubato.Gen Require Import FastGen.
-From Rubato.Proofs Require Import MalformedP FastInR FastOutR FastCtorR.
+From Rubato.Proofs Require Import MalformedP FastInR FastOutR FastCtorR SincInR.
+From Rubato.Gen Require Import SincGen.
 Import ListNotations.
 Local Open Scope R_scope.
 
@@ -42,6 +43,12 @@ Theorem C07_fast_out_bound_R : forall d blen calls (s s' : @astate CR SR (@FastF
   Rabs (IZR nout - oratio s * IZR nin) <= oratio s * (8 + / oratio s + 3) + 3.
 Proof. exact fo_accounting_const_R. Qed.
 
+(** SincFixedIn, any set_chunk_size schedule: the property's constant with filter length sinc_len. *)
+Theorem C07_sinc_in_bound_R : forall env ops (s s' : @astate CR SR (@SincFixedIn CR)) nin nout,
+  si_wf env s -> (forall n, In (SChunk n) ops -> (0 <= n)%Z) -> si_run env s ops = Ok (s', nin, nout) ->
+  Rabs (IZR nout - sratio s * IZR nin) <= sratio s * (IZR (sL s) + / sratio s + 3) + 3.
+Proof. exact si_accounting_const_R. Qed.
+
 (** The hypotheses are met by every constructed resampler. *)
 Theorem C07_ctor_fast_in_R : forall ratio maxrel d chunk nch s, (1 <= chunk)%Z -> (0 <= nch)%Z ->
   @fast_in_new CR SR ratio maxrel d chunk nch = inr (RFastIn d s) -> fi_wf s /\ ratio = FastInR.ratio s.
@@ -56,3 +63,4 @@ Print Assumptions C07_fast_out_telescope_R.
 Print Assumptions C07_fast_in_bound_R.
 Print Assumptions C07_fast_out_bound_R.
 Print Assumptions C07_ctor_fast_out_R.
+Print Assumptions C07_sinc_in_bound_R.
